@@ -86,6 +86,9 @@ pub const SHAPES: &[Shape] = &[
     },
     Shape { name: "procedure-parameter", defs: "(define (loop f n acc) BODY0)", start: "(loop loop N 0)", calls: &[("f", "f NEXT (+ acc 1)")] },
     Shape { name: "variadic", defs: "(define (loop n . r) (define acc (car r)) BODY0)", start: "(loop N 0 'x 'y)", calls: &[("loop", "NEXT (+ acc 1) 'x 'y")] },
+    // every round runs a NEW closure of the same lambda whose captured k differs: the result is
+    // right only if the trampoline really switches to the closure the tail call produced
+    Shape { name: "closure-with-captured-state", defs: "(define (make-step k) (lambda (n acc) BODY0))", start: "((make-step 0) N 0)", calls: &[("(make-step (+ k 1))", "NEXT (+ k 1)")] },
     Shape { name: "closure-returned", defs: "(define (make-step) (lambda (n acc) BODY0))", start: "((make-step) N 0)", calls: &[("(make-step)", "NEXT (+ acc 1)")] },
 ];
 
